@@ -273,6 +273,42 @@ func verifReadAtCheck(env *verifBlobEnv, maxLen int) {
 	vr.Assert(post <= env.size, "fetched-size-bounded-by-blob-size")
 }
 
+// C15/H3b (third seed round, C15-m3): Cache(0,s) after an earlier on-demand read anywhere in the blob. The fetched-size
+// counter is then non-zero before Cache runs, so a Cache that trusts the counter instead of the cache contents is exposed:
+// whatever was read before, after a successful Cache(0,s) every read inside [0,s) is local and byte-exact.
+func VerifH_C06_cacheThenLocalAfterRead() {
+	maxSize, maxCS := 4, 2
+	if vr.Tier() > 0 {
+		maxSize, maxCS = 6, 3
+	}
+	env := verifNewBlobEnv(maxSize, maxCS, false)
+	off0 := vr.I64("prioroffset")
+	n0 := vr.Len("priorlen", 2)
+	vr.Assume(0 <= off0 && off0 <= env.size)
+	p0 := make([]byte, n0)
+	env.b.ReadAt(p0, off0)
+	s := vr.I64("cachesize")
+	vr.Assume(0 < s && s <= env.size)
+	err := env.b.Cache(0, s)
+	vr.Assert(env.cacheInvariant(), "cache-invariant-preserved")
+	if err != nil {
+		vr.Reach("cache-failed")
+		return
+	}
+	before := env.f.fetches
+	off := vr.I64("offset")
+	n := vr.Len("len", 2)
+	vr.Assume(0 <= off && off <= s && off+int64(n) <= s)
+	p := make([]byte, n)
+	got, rerr := env.b.ReadAt(p, off)
+	vr.Assert(rerr == nil && got == n, "local-read-succeeds")
+	vr.Assert(env.f.fetches == before, "no-registry-request-after-cache")
+	for i := 0; i < got; i++ {
+		vr.Assert(p[i] == env.bytes[int(off)+i], "local-read-bytes-exact")
+	}
+	vr.Reach("end")
+}
+
 // C06/H2d: as H2a, but the first reply of the registry is a single part whose Content-Range is arbitrary
 // (unrequested, unaligned, empty, reaching past the end of the blob); later replies follow the usual personalities.
 func VerifH_C06_readAtArbitraryPart() {
